@@ -36,11 +36,14 @@ def tree_hash():
 
 def _engine_hash():
     h = hashlib.sha256()
-    for sub in ("engine",):
+    # engine/ entirely, and the headers under harness/ (shared by several translation units)
+    for sub in ("engine", "harness"):
         d = os.path.join(VERIF, sub)
         for root, dirs, files in os.walk(d):
             dirs.sort()
             for f in sorted(files):
+                if sub == "harness" and not f.endswith((".hpp", ".h")):
+                    continue
                 p = os.path.join(root, f)
                 h.update(p.encode())
                 with open(p, "rb") as fh:
